@@ -75,6 +75,27 @@ Theorem C20_non_report_ignored : forall sup c e id,
 Proof. exact process_event_no_report. Qed.
 Print Assumptions C20_non_report_ignored.
 
+(* AddEnr of a node that is already in the table (same record again, or a newer record) leaves its reported radius alone;
+   only a node that newly enters the table gets the assumed maximum *)
+Theorem C20_add_enr_keeps_report : forall c id, process_add_enr c id false = c.
+Proof. exact add_enr_keeps_report. Qed.
+Print Assumptions C20_add_enr_keeps_report.
+Theorem C20_add_enr_cache : forall c id added id',
+  cache_get (process_add_enr c id added) id' = if added && (id =? id') then Some (RGood max_distance) else cache_get c id'.
+Proof. exact add_enr_get. Qed.
+Print Assumptions C20_add_enr_cache.
+
+(* the radius this node announces in a PONG is the storage's radius at the time of the request, for every supported
+   radius-carrying payload type *)
+Theorem C20_announced_radius_is_current : forall sup t d r t' r',
+  pong_of_ping sup t d r = (t', Some r') -> r' = r /\ t' = t.
+Proof. exact pong_announces_current_radius. Qed.
+Print Assumptions C20_announced_radius_is_current.
+Theorem C20_radius_types_announce : forall sup t r,
+  existsb (N.eqb t) sup = true -> carries_radius t = true -> pong_of_ping sup t true r = (t, Some r).
+Proof. exact pong_for_radius_type. Qed.
+Print Assumptions C20_radius_types_announce.
+
 (* the witnesses the correspondence driver hands to the model are legal behaviours of sort.Slice / rand.Shuffle *)
 Theorem C20_witness_sort_legal : forall cid w, is_sort cid (pick_sorted cid w).
 Proof. exact pick_sorted_is_sort. Qed.
